@@ -212,6 +212,55 @@ def downgrade(state: dict, target: str) -> dict | None:
     return d
 
 
+def split_websocket(d: dict) -> list[dict]:
+    """Inverse of convert_11_12 for an HTTP flow state of format 12 that carries WebSocket data: formats <= 11 stored
+    the handshake as an HTTP record (metadata websocket=True) followed by a record of type "websocket" that refers
+    to it (field list taken from the shipped dumpfile-7-websocket.mitm)."""
+    import uuid
+
+    ws = d.pop("websocket")
+    hs = d
+    hs["metadata"] = dict(hs.get("metadata") or {}, websocket=True)
+    rec = {
+        "type": "websocket", "id": str(uuid.UUID(int=(uuid.UUID(hs["id"]).int ^ 0xFFFF))), "version": hs["version"],
+        "error": None, "intercepted": False, "marked": hs["marked"], "is_replay": hs.get("is_replay"),
+        "metadata": {"websocket_handshake": hs["id"]},
+        "client_conn": copy.deepcopy(hs["client_conn"]), "server_conn": copy.deepcopy(hs["server_conn"]),
+        "messages": [list(m) for m in ws["messages"]],
+        "close_sender": "client" if ws["closed_by_client"] else "server",
+        "close_code": ws["close_code"], "close_reason": ws["close_reason"], "close_message": "(message missing)",
+        "client_key": "psOeQKar8m7Otzq5uzGAhw==", "client_protocol": None, "client_extensions": "permessage-deflate",
+        "server_accept": "KHQasWKt4lBrFLDDBlc9uW9oLDc=", "server_protocol": None, "server_extensions": None,
+    }
+    return [hs, rec]
+
+
+OLDEST_WEBSOCKET_PAIR = "5"
+
+
+def downgrade_records(state: dict, target: str) -> list[dict] | None:
+    """Like downgrade(), but a flow with WebSocket data is split into its handshake + websocket records below 12."""
+    if not state.get("websocket") or CHAIN.index(target) >= CHAIN.index("12"):
+        d = downgrade(state, target)
+        return None if d is None else [d]
+    if CHAIN.index(target) < CHAIN.index(OLDEST_WEBSOCKET_PAIR):
+        return None
+    d12 = downgrade(state, "12")
+    recs = split_websocket(d12)
+    i = CHAIN.index("12")
+    while i > CHAIN.index(target):
+        label = CHAIN[i - 1]
+        for r in recs:
+            if label != "11":
+                BACK[label](r)
+            r["version"] = version_value(label)
+        i -= 1
+    for r in recs:
+        if r["type"] == "websocket":
+            r.pop("is_replay", None) if CHAIN.index(target) < CHAIN.index("9") else None
+    return recs
+
+
 # ---- shape facts ---------------------------------------------------------------------------------------------
 def _s(k):
     return k.decode("ascii", "replace") if isinstance(k, bytes) else k
